@@ -22,15 +22,16 @@ impl<$TP> Handle<$G, Message<Never, Never>> for UpTb {
     type CC = Cap;
     open spec fn gate(&self, k: int, h: $HEAP, g: $G, c: Cap, m: Message<Never, Never>) -> bool {
         if k == $GATE_UP_KIND { m is Pull || m is Terminate || m is Error }
-        else if k == $GATE_UP_GREETED { self.i < g.ups.len() && up_greeted(g.ups[self.i as int].phase) }
-        else if k == $GATE_UP_PULL_LIVE { self.i < g.ups.len() && (m is Pull && !dn_over(g.dn.phase) ==> g.ups[self.i as int].phase != Up::EndedByUs) }
-        else if k == $GATE_UP_PULL_SELF { self.i < g.ups.len() && (m is Pull && !dn_over(g.dn.phase) ==> g.ups[self.i as int].phase != Up::EndedBySelf && g.ups[self.i as int].phase != Up::ErroredBySelf) }
-        else if k == $GATE_UP_PULL_OVER { self.i < g.ups.len() && (m is Pull && dn_over(g.dn.phase) ==> !up_over(g.ups[self.i as int].phase)) }
-        else if k == $GATE_UP_TERM_ONCE { self.i < g.ups.len() && (!(m is Pull) ==> g.ups[self.i as int].phase != Up::EndedByUs) }
-        else if k == $GATE_UP_TERM_SELF { self.i < g.ups.len() && (!(m is Pull) ==> g.ups[self.i as int].phase != Up::EndedBySelf && g.ups[self.i as int].phase != Up::ErroredBySelf) }
+        else if k == $GATE_UP_GREETED { $LITE || (self.i < g.ups.len() && up_greeted(g.ups[self.i as int].phase)) }
+        else if k == $GATE_UP_PULL_LIVE { $LITE || (self.i < g.ups.len() && (m is Pull && !dn_over(g.dn.phase) ==> g.ups[self.i as int].phase != Up::EndedByUs)) }
+        else if k == $GATE_UP_PULL_SELF { $LITE || (self.i < g.ups.len() && (m is Pull && !dn_over(g.dn.phase) ==> g.ups[self.i as int].phase != Up::EndedBySelf && g.ups[self.i as int].phase != Up::ErroredBySelf)) }
+        else if k == $GATE_UP_PULL_OVER { $LITE || (self.i < g.ups.len() && (m is Pull && dn_over(g.dn.phase) ==> !up_over(g.ups[self.i as int].phase))) }
+        else if k == $GATE_UP_TERM_ONCE { $LITE || (self.i < g.ups.len() && (!(m is Pull) ==> g.ups[self.i as int].phase != Up::EndedByUs)) }
+        else if k == $GATE_UP_TERM_SELF { $LITE || (self.i < g.ups.len() && (!(m is Pull) ==> g.ups[self.i as int].phase != Up::EndedBySelf && g.ups[self.i as int].phase != Up::ErroredBySelf)) }
         else { uptb_gate(*self, k, h, g, c, m) }
     }
-    open spec fn post(&self, g: $G, m: Message<Never, Never>) -> $G { set_up(g, self.i as int, up_send(g.ups[self.i as int], m)) }
+    /// (LITE units switch the upstream-side clauses off; there a member that is already over ignores what it is sent)
+    open spec fn post(&self, g: $G, m: Message<Never, Never>) -> $G { if $LITE && (self.i >= g.ups.len() || up_over(g.ups[self.i as int].phase) || !up_greeted(g.ups[self.i as int].phase)) { g } else { set_up(g, self.i as int, up_send(g.ups[self.i as int], m)) } }
     open spec fn needs_inv(&self, g: $G, m: Message<Never, Never>, p: int) -> bool { m is Pull }
     open spec fn extra(&self, h: Self::HH, g: $G, c: Self::CC, m: Message<Never, Never>) -> bool { true }
 }
@@ -71,7 +72,7 @@ pub fn up_events_of<$TP>(i: usize, h: &mut $HEAP, g: &mut Ghost<$G>, c: &Cap)
             i < c.n,
     {
         if nondet_bool() { break; }
-        let ghost live = g@.ups[i as int].phase == Up::Live && quiet(g@);
+        let ghost live = g@.ups[i as int].phase == Up::Live && ($LATE || quiet(g@));
         let ghost outstanding = g@.ups[i as int].data.len() < g@.ups[i as int].pulls;
         if ghost_test(Ghost(live)) {
             if !c.pullable || ghost_test(Ghost(outstanding)) {
@@ -87,9 +88,9 @@ impl<$TP> Handle<$G, Message<Never, Tok_source_talkback>> for UpSrc {
     type CC = Cap;
     open spec fn gate(&self, k: int, h: $HEAP, g: $G, c: Cap, m: Message<Never, Tok_source_talkback>) -> bool {
         if k == $GATE_SUB_KIND { m is Handshake }
-        else if k == $GATE_SUB_ONCE { self.i < g.ups.len() && g.ups[self.i as int].phase == Up::Idle }
-        else if k == $GATE_SUB_OVER { !dn_over(g.dn.phase) }
-        else if k == $GATE_QUIET { quiet(g) }
+        else if k == $GATE_SUB_ONCE { $LITE || (self.i < g.ups.len() && g.ups[self.i as int].phase == Up::Idle) }
+        else if k == $GATE_SUB_OVER { $LITE || (!dn_over(g.dn.phase)) }
+        else if k == $GATE_QUIET { $LITE || (quiet(g)) }
         else { upsrc_gate(*self, k, h, g, c, m) }
     }
     open spec fn post(&self, g: $G, m: Message<Never, Tok_source_talkback>) -> $G { set_up(g, self.i as int, UpLink { phase: Up::Subscribing, ..g.ups[self.i as int] }) }
@@ -107,10 +108,11 @@ impl UpSrc {
         ensures
             INV!(*final(h), final(g)@, *c),
             mono(*old(h), self.post(old(g)@, m), *final(h), final(g)@),
-            quiet(final(g)@),
+            $LATE || quiet(final(g)@),
             sub_rel(self.i as int, *old(h), self.post(old(g)@, m), *final(h), final(g)@, *c),
     {
         proof { g@ = self.post(g@, m); }
+        if $LATE && nondet_bool() { return; }   // profile L: the member greets later, at top level
         // a conformant source greets inside the subscribing call ...
         $OP__source_talkback(h, g, c, self.i, Message::Handshake(UpTb { i: self.i }));
         // ... and may emit, end or fail before returning
